@@ -769,7 +769,7 @@ Proof.
   { rewrite forallb_forall in C3b. apply C3b. apply in_or_app; right; left; reflexivity. }
   split.
   - change (a2 :: s2 ++ [y]) with ((a2 :: s2) ++ [y]). rewrite lbound_app, S1a. cbn [lbound andb].
-    change ((a2 :: s2) ++ [y]) with (a2 :: s2 ++ [y]). cbn [ssortedb] in S2. rewrite S2. rewrite !andb_true_r. lia.
+    change ((a2 :: s2) ++ [y]) with (a2 :: s2 ++ [y]). cbn [ssortedb] in S2. rewrite S2. rewrite !andb_true_r. clear - Hay. lia.
   - rewrite C1a. cbn [andb]. change (a2 :: s2 ++ [y]) with ((a2 :: s2) ++ [y]). rewrite forallb_app, C1b. cbn [forallb andb].
     rewrite Aay. cbn [andb]. change ((a2 :: s2) ++ [y]) with (a2 :: s2 ++ [y]). cbn [cliqueb] in C2. exact C2.
 Qed.
